@@ -393,6 +393,8 @@ CHARSUB_TARGETS = set("“”„‘’—–")
 _CW_END = re.compile(r"\\[A-Za-z]+$")
 
 
+TEXT_ACCENTS = ["gar\\c con", "Erd\\H os", "\\v Simek", "caf\\'e", 'na\\"ive', "\\c{c}a", "\\u a", "\\d o", "\\r A"]
+
 class _Gen(object):
     """Draw-based recursive generator of formula *source text*.
 
@@ -611,6 +613,10 @@ class _Gen(object):
         if modal and self.integer(0, 1):
             words.append(self.pick(modal)["name"] + "{}")      # text-mode call of a mode-dependent macro
             self.feats.add("textbox:mode-dependent-macro")
+        if self.integer(0, 3) == 0:
+            # text accents: one-letter control words and control symbols, argument bare or braced
+            words.append(self.pick(TEXT_ACCENTS))
+            self.feats.add("textbox:accent-command")
         if self.integer(0, 1):
             words.append(self.pick(WORDS))
         return cmd + "{" + self.pick(["", " "]) + " ".join(words) + self.pick(["", " "]) + "}"
